@@ -148,7 +148,16 @@ pub fn run_exec(prop: &Prop, scen: &Scenario) -> Exec {
             } else {
                 "panic".into()
             };
-            Exec::Harness(format!("harness panic in run {} ({}): {what}", scen.run, scen.suite))
+            // where did it panic? The hook keeps "panicked at <file>:<line>:<col>: <message>". A panic raised inside the library's own
+            // sources (the mirror of /repo) on inputs a check built through the public API is the library's failure to answer, not
+            // the harness's: it is reported as a violation of the property being checked; anything else is a harness error.
+            let loc = crate::props::c14::LAST_PANIC.with(|l| l.borrow().clone());
+            if loc.contains("/mirror/frost-") {
+                let mut v = Violation::new(prop.id, &format!("{}.library_panicked", prop.id), format!("a library call made by this check panicked: {}", loc.chars().take(300).collect::<String>()));
+                v.narrow = None;
+                return Exec::Violation(v, RunReport::default());
+            }
+            Exec::Harness(format!("harness panic in run {} ({}): {what} [{}]", scen.run, scen.suite, loc.chars().take(200).collect::<String>()))
         }
     }
 }
